@@ -59,7 +59,7 @@ fn pieces(s: &SeqSpec) -> (Vec<u8>, Vec<u8>, Vec<Vec<u8>>) {
         // make positions recognisable so that a wrong order is never equal by accident
         *b = (*b & 0xf0) | (i as u8 & 0x0f);
     }
-    let n = s.n.clamp(1, 8) as usize;
+    let n = s.n.clamp(1, 700) as usize;
     let mut cuts: Vec<usize> = (0..n - 1).map(|_| r.below(u64::from(s.len) + 1) as usize).collect();
     cuts.sort();
     let mut frags = Vec::new();
@@ -145,14 +145,26 @@ impl Scenario for C09 {
             let p = Plan { kind: "reuse".into(), seqs, deliveries, timeout_ms, salt: r.next_u64() };
             return serde_json::to_value(p).unwrap();
         }
+        if r.chance(1, 60) {
+            // messages in hundreds of fragments: one is abandoned half way (its assembler dropped, cleared, or the
+            // sequence expired and swept), another one - in the same process - then arrives completely
+            let mut a = gen_seq(r, &mut used);
+            a.n = r.range(256, 600) as u32;
+            a.len = r.range(600, 2000) as u32;
+            let mut b = gen_seq(r, &mut used);
+            b.n = r.range(u64::from(a.n), 700) as u32;
+            b.len = r.range(700, 2500) as u32;
+            let p = Plan { kind: "large".into(), seqs: vec![a, b], deliveries: Vec::new(), timeout_ms: 1_000, salt: r.next_u64() };
+            return serde_json::to_value(p).unwrap();
+        }
         // now and then a crowd: dozens to hundreds of sequences in flight at once, each short
         let crowd = r.chance(1, 40);
-        let n_seqs = if crowd { r.range(60, 520) as usize } else { r.range(1, 4) as usize };
+        let n_seqs = if crowd { if r.chance(1, 4) { r.range(1_000, 1_300) as usize } else { r.range(60, 520) as usize } } else { r.range(1, 4) as usize };
         let seqs: Vec<SeqSpec> = (0..n_seqs)
             .map(|_| {
                 let mut s = gen_seq(r, &mut used);
                 if crowd {
-                    s.n = r.range(1, 3) as u32;
+                    s.n = if n_seqs >= 1_000 { r.range(2, 3) as u32 } else { r.range(1, 3) as u32 };
                     s.len = s.len.min(40);
                 }
                 s
@@ -182,6 +194,21 @@ impl Scenario for C09 {
             let j = r.below(i as u64 + 1) as usize;
             pool.swap(i, j);
         }
+        if n_seqs >= 1_000 {
+            // the very large crowds stay incomplete together: one delivery of every sequence is held back
+            // until all the others are through
+            let mut last_of: BTreeMap<u32, usize> = BTreeMap::new();
+            for (i, d) in pool.iter().enumerate() {
+                last_of.insert(d.seq, i);
+            }
+            let held: BTreeSet<usize> = last_of.values().copied().collect();
+            let (mut first, mut tail): (Vec<Delivery>, Vec<Delivery>) = (Vec::new(), Vec::new());
+            for (i, d) in pool.drain(..).enumerate() {
+                if held.contains(&i) { tail.push(d) } else { first.push(d) }
+            }
+            first.extend(tail);
+            pool = first;
+        }
         for d in pool.iter_mut() {
             d.wait_ms = match r.below(8) {
                 _ if crowd && !r.chance(1, 50) => 0,
@@ -205,7 +232,7 @@ impl Scenario for C09 {
         if p.deliveries.iter().map(|d| d.wait_ms as u128).sum::<u128>() > 40 * 3_600_000 {
             return RunOutput::default(); // longer than the run's horizon
         }
-        if p.seqs.is_empty() || p.seqs.len() > 600 || p.seqs.iter().any(|s| s.n == 0 || s.n > 8) {
+        if p.seqs.is_empty() || p.seqs.len() > 1400 || p.seqs.iter().any(|s| s.n == 0 || (s.n > 8 && p.kind != "large") || s.n > 700) {
             return RunOutput::default();
         }
         if p.kind == "reuse" {
@@ -219,12 +246,14 @@ impl Scenario for C09 {
             }
         }
         let world = World::new(tape, keep, p.salt);
-        let nontrivial = p.kind == "permutations" || p.seqs.iter().any(|s| s.n > 1);
+        let nontrivial = p.kind == "permutations" || p.kind == "large" || p.seqs.iter().any(|s| s.n > 1);
         let ex = execute(&world, 48 * 3_600_000, |w| async move {
             if p.kind == "permutations" {
                 permutations(&w, &p).await;
             } else if p.kind == "reuse" {
                 reuse(&w, &p).await;
+            } else if p.kind == "large" {
+                large(&w, &p).await;
             } else {
                 channel(&w, &p).await;
             }
@@ -239,7 +268,7 @@ impl Scenario for C09 {
             components_stubbed: &["the unordered, duplicating, dropping channel (simulator)", "decode_fragment_header/cont and Connection::receive_message are not in this loop (see C06)"],
             assumptions: &["FragmentAssembler::new() and ::default() both mean the documented 30 s timeout", "a result equal to the ascending-fragment-id concatenation but different from the original message is classified separately (order-ascending-id) from any other wrong result"],
             fault_prefixes: &["fault."],
-            expected_probes: &["probe.c09.completed", "probe.c09.completed_header_last", "probe.c09.completed_header_first", "probe.c09.duplicate_ignored", "probe.c09.out_of_range_ignored", "probe.c09.expired_removed", "probe.c09.incomplete_stays_pending", "probe.c09.interleaved_sequences", "probe.c09.reused_id_completed", "probe.c09.reused_id_continuation_first", "probe.c09.late_duplicate_after_completion", "probe.c09.built_with_new", "probe.c09.built_with_default", "probe.c09.timeout_means_never", "probe.c09.crowd_of_sequences"],
+            expected_probes: &["probe.c09.completed", "probe.c09.completed_header_last", "probe.c09.completed_header_first", "probe.c09.duplicate_ignored", "probe.c09.out_of_range_ignored", "probe.c09.expired_removed", "probe.c09.incomplete_stays_pending", "probe.c09.interleaved_sequences", "probe.c09.reused_id_completed", "probe.c09.reused_id_continuation_first", "probe.c09.late_duplicate_after_completion", "probe.c09.built_with_new", "probe.c09.built_with_default", "probe.c09.timeout_means_never", "probe.c09.crowd_of_sequences", "probe.c09.long_sequence_abandoned", "probe.c09.more_than_1024_sequences"],
         }
     }
 }
@@ -276,6 +305,69 @@ fn reuse_plan_ok(p: &Plan) -> bool {
     }
     let n = u64::from(p.seqs[cur as usize].n);
     cur as usize + 1 == p.seqs.len() && seen.len() as u64 == n && last_new
+}
+
+async fn large(w: &Arc<World>, p: &Plan) {
+    if p.seqs.len() != 2 {
+        return;
+    }
+    let mut r = Rng::new(p.salt ^ 0x1a46e);
+    // first message: header and a part of the continuations, then it is given up
+    let how = r.below(3);
+    let mut asm = FragmentAssembler::with_timeout(Duration::from_millis(p.timeout_ms.max(100)));
+    {
+        let s = &p.seqs[0];
+        let (prefix, _data, frags) = pieces(s);
+        let n = frags.len() as u64;
+        let _ = asm.start_fragment(s.id, n, if prefix.is_empty() { None } else { Some(prefix) }, frags[0].clone());
+        for id in (1..n).rev() {
+            if r.chance(2, 3) {
+                if asm.add_fragment(s.id, id, frags[(n - id) as usize].clone()).is_some() && id != 1 {
+                    w.violation("premature-or-repeated", format!("a message of {} fragments completed at fragment {}", n, id));
+                    return;
+                }
+            }
+        }
+    }
+    match how {
+        0 => {
+            asm = FragmentAssembler::with_timeout(Duration::from_millis(p.timeout_ms.max(100)));
+        }
+        1 => asm.clear(),
+        _ => {
+            tokio::time::sleep(Duration::from_millis(2 * p.timeout_ms.max(100) + 10)).await;
+            let _ = asm.cleanup_expired();
+        }
+    }
+    w.stat("probe.c09.long_sequence_abandoned");
+    if asm.pending_count() != 0 {
+        // (a sequence that was not swept because it is not yet expired is fine; dropped and cleared ones are gone)
+        if how != 2 {
+            w.violation("pending-count", format!("{} sequences pending in a fresh or cleared assembler", asm.pending_count()));
+            return;
+        }
+    }
+    // second message: every fragment, header first, then the continuations in a seeded order
+    let s = &p.seqs[1];
+    let (prefix, _data, frags) = pieces(s);
+    let n = frags.len() as u64;
+    let mut order: Vec<u64> = (1..n).collect();
+    for i in (1..order.len()).rev() {
+        let j = r.below(i as u64 + 1) as usize;
+        order.swap(i, j);
+    }
+    let mut res = asm.start_fragment(s.id, n, if prefix.is_empty() { None } else { Some(prefix) }, frags[0].clone());
+    for (k, id) in order.iter().enumerate() {
+        if res.is_some() {
+            w.violation("premature-or-repeated", format!("a message of {} fragments completed after {} of them", n, k + 1));
+            return;
+        }
+        res = asm.add_fragment(s.id, *id, frags[(n - id) as usize].clone());
+    }
+    match res {
+        Some(bytes) => classify(w, s, &bytes, &format!("a message of {} fragments after one of {} was abandoned", n, p.seqs[0].n)),
+        None => w.violation("not-completed", format!("all {} fragments of a message were delivered (after a message of {} fragments had been abandoned in the same process) but nothing was returned", n, p.seqs[0].n)),
+    }
 }
 
 async fn reuse(w: &Arc<World>, p: &Plan) {
@@ -512,6 +604,9 @@ async fn channel(w: &Arc<World>, p: &Plan) {
     }
     if seen_seqs.len() >= 64 {
         w.stat("probe.c09.crowd_of_sequences");
+    }
+    if seen_seqs.len() >= 1024 {
+        w.stat("probe.c09.more_than_1024_sequences");
     }
 }
 
